@@ -132,6 +132,8 @@ func opMem(a []Sx) Sx {
 		}()
 		done <- f()
 	}()
+	expired, stop := afterTicks(caseTimeout - time.Second)
+	defer stop()
 	select {
 	case err := <-done:
 		if err != nil {
@@ -140,7 +142,7 @@ func opMem(a []Sx) Sx {
 				status = "panic"
 			}
 		}
-	case <-time.After(caseTimeout - time.Second):
+	case <-expired:
 		status = "timeout"
 	}
 	runtime.ReadMemStats(&after)
